@@ -432,6 +432,18 @@ def oracle_c07(tables, seed, tier, deep):
         dist["stream-" + parts[0]] += 1
         if not ok:
             viol.append({"site": "stream:" + parts[0], "detail": "multi-line run with the hostile line at position 3 did not process the other lines as usual", "input_hex": hx(b), "status": r[:60]})
+    # whole program: a line far beyond the reader's limit (millions of nesting levels) between two good lines:
+    # the only allowed outcome is the explicit error with a non-zero status after the first line - never a crash
+    deep_line = b"[" * 6000000
+    rc, so, se = run_cli(["redact"], stdin=good[0] + b"\n" + deep_line + b"\n" + good[2] + b"\n", timeout=300)
+    dist["cli-deep-line-exit%d" % rc] += 1
+    if b"panic" in se or b"fatal error" in se or b"goroutine " in se or rc not in (0, 1):
+        viol.append({"site": "crash:deep-line", "detail": "a line of 6,000,000 '[' crashed the run (exit %d): %s" % (rc, se[:200].decode("utf-8", "replace")), "input": "good line; '[' x 6000000; good line", "cfg": "-"})
+    elif rc == 0:
+        if so != exp_good[0] + exp_good[2]:
+            viol.append({"site": "deep-line:exit0", "detail": "exit 0 but the other lines were not processed as usual", "input": "good line; '[' x 6000000; good line", "cfg": "-"})
+    elif so != exp_good[0] or not se.strip():
+        viol.append({"site": "deep-line:exit1", "detail": "explicit stop expected: first line emitted, message on stderr; got %d bytes of output, stderr %r" % (len(so), se[:100]), "input": "good line; '[' x 6000000; good line", "cfg": "-"})
     return result(viol, len(ops) + len(sops), len(set(lines)), "hostile byte strings: every JSON token class first, truncations and byte flips of real lines, trailing garbage, legacy text lines, invalid UTF-8, lone surrogates, wrong value kinds under $date/$oid/$binary and under every table key, nesting depth up to 20000; each alone (6 flag sets incl. eager/selective/encrypt) and inside a 4-line stream",
                   dist, [lines[5][:100].decode("utf-8", "replace")])
 
@@ -1567,6 +1579,20 @@ def oracle_c14(tables, seed, tier, deep):
     rng = SplitMix(seed ^ 0xC14)
     cases = [cs for cs in grammar_cases(seed ^ 14, n) if cs.fields]
     pairs = []
+    # directed: literals in array-valued fields, $in / $nin / $all / $each, arrays of sub-documents, '$field' siblings -
+    # in a find filter, an update, and in $match / $addFields / $project stages; the expression matches exactly one name
+    def dline(cmd):
+        return Obj([("c", "COMMAND"), ("msg", "Slow query"), ("attr", Obj([("ns", "d.c"), ("command", cmd)]))])
+    shapes = lambda: [["zq1xs", "zq2xs"], Obj([("$in", ["zq1xs", "zq2xs"])]), Obj([("$nin", ["zq1xs"])]), Obj([("$all", [["zq1xs"], "zq2xs"])]), [Obj([("sub", "zq1xs")]), Obj([("sub", ["zq2xs"])])],
+                       Obj([("$elemMatch", Obj([("sub", Obj([("$in", ["zq1xs"])]))]))]), "zq1xs", Obj([("inner", Obj([("deep", ["zq1xs", ["zq2xs"]])]))])]
+    roles = {"zq1xs": "S", "zq2xs": "S"}
+    for sh in shapes():
+        for name, rx in (("tags", "^tags$"), ("tags", "^other$"), ("a.tags", "tags")):
+            for cmd in (Obj([("find", "c"), ("filter", Obj([(name, sh), ("keep", "zq3xs")]))]),
+                        Obj([("aggregate", "c"), ("pipeline", [Obj([("$match", Obj([(name, sh), ("keep", "zq3xs")]))])])]),
+                        Obj([("aggregate", "c"), ("pipeline", [Obj([("$addFields", Obj([(name, sh)]))]), Obj([("$project", Obj([("keep", "zq3xs"), (name, sh)]))])])]),
+                        Obj([("update", "c"), ("updates", [Obj([("q", Obj([(name, sh)])), ("u", Obj([("$push", Obj([(name, Obj([("$each", ["zq1xs", "zq2xs"])]))]))]))])])])):
+                pairs.append((Case(dline(cmd), dict(roles, zq3xs="S"), [name], "d.c", "directed"), Cfg(re=rx), rx))
     for i, cs in enumerate(cases):
         fs = [f for f in cs.fields]
         pick = [rng.choice(fs)] + ([rng.choice(fs)] if rng.chance(1, 2) else [])
